@@ -122,4 +122,29 @@ theorem onChangeView_eq (k : W → Pl → W) (e : Env) (w : W) (msg : Pl) (old n
           simp [h2, this]
     · simp
 
+open Dbft.Mach in
+/-- `DBFT.onTimeout` (validator, N3, no MaxTimePerBlock): the machine's reaction to a timer tick follows the translated
+decision — after the block or for another (height, view): nothing; primary without a request: propose; Commit sent:
+RecoveryMessage and the timer re-armed; otherwise ask for the next view. -/
+theorem onTimeout_eq (e : Env) (w : W) (h v : Nat) :
+    let g := c19OnTimeout (h : Int) (v : Int) false false w.nd.blockProcessed (w.nd.bi : Int) (w.nd.view : Int)
+      w.nd.isPrimary w.nd.requestSOR (!w.nd.isPrimary) w.nd.commitSent false (w.nd.view : Int) false (e.tpb : Int) false 0 0 (e.tpb : Int)
+    onTimeout e w h v =
+      (if g.contains "d.sendPrepareRequest" then sendPrepareRequest e w
+       else if g.contains "d.sendRecoveryMessage" then changeTimer (sendRecoveryMessage w) (e.tpb <<< 1)
+       else if g.contains "d.sendChangeView" then sendChangeView (onReceive e fuel) e w 0
+       else w) := by
+  intro g
+  unfold onTimeout
+  simp only [g, c19OnTimeout]
+  cases w.nd.blockProcessed
+  · by_cases hh : h = w.nd.bi <;> by_cases hv : v = w.nd.view
+    · subst hh; subst hv
+      cases w.nd.isPrimary <;> cases w.nd.requestSOR <;> cases w.nd.commitSent <;> simp
+    all_goals
+      have hhi : ((h : Int) = (w.nd.bi : Int)) ↔ h = w.nd.bi := by omega
+      have hvi : ((v : Int) = (w.nd.view : Int)) ↔ v = w.nd.view := by omega
+      simp [hh, hv, hhi, hvi]
+  · simp
+
 end NeoModel.GoFuncsTie
